@@ -82,6 +82,9 @@ def check_T(col, name, u, tu, opts):
         col.violation("spelling:" + name, FN, dict(opts, url=u, variant=tu), {"canon(url)": a[1], "canon(variant)": b[1]}, "equal")
 
 
+# escaped characters that NFKC normalisation turns into a delimiter of the authority (fullwidth solidus / commercial at / colon, double question mark, "c/o"):
+# the standard parser refuses them RAW in a netloc, so what canonicalize_url returns for them must still parse
+NETLOC_LOOKALIKES = ["%EF%BC%8F", "%EF%BC%A0", "%ef%bc%9a", "%E2%81%87", "%E2%84%85"]
 IDN_TWINS = {"télérama": ("xn--tlrama-bvab", "XN--TLRAMA-BVAB"), "xn--tlrama-bvab": ("télérama",),
              "münchen": ("xn--mnchen-3ya",), "xn--mnchen-3ya": ("münchen", "xN--mnchen-3ya")}
 HOSTS = ["a.com", "WWW.A.Com", "xn--tlrama-bvab.fr", "télérama.fr", "a.co.uk", "télérama.münchen.de", "xn--tlrama-bvab.münchen.de", "télérama.xn--mnchen-3ya.de",
@@ -132,7 +135,7 @@ def transforms(parts):
 def build(parts):
     path = None
     if parts["path"] is not None:
-        path = parts.get("path_prefix", "") + "/" + "".join(parts["path"])
+        path = parts.get("path_prefix", "") + "/" + "".join(parts["path"]) + parts.get("path_suffix", "")
     u = R.assemble(scheme=parts["scheme"], user="".join(parts["user"]) if parts["user"] is not None else None,
                    password="".join(parts["password"]) if parts["password"] is not None else None,
                    host=parts["host"], port=parts["port"], path=path or "",
@@ -173,6 +176,13 @@ def shard(job):
                 continue
             for o in (OPTS[0], OPTS[3]):
                 check_T(col, name, u, tu, o)
+        if comp == "path":
+            # a FINAL dot segment, raw and with its dots escaped (any mix): the same path, trailing slash included
+            for raw, escs in (("/.", ("/%2E", "/%2e")), ("/..", ("/%2E%2E", "/.%2E", "/%2e.")), ("/./", ("/%2E/",)), ("/../", ("/%2e%2E/",))):
+                pu = dict(p, path_suffix=raw)
+                for esc in escs:
+                    for o in OPTS:
+                        check_T(col, "escaped-vs-raw", build(pu), build(dict(p, path_suffix=esc)), o)
         if comp in ("path", "query") and toks[-1].strip() == "":
             # whitespace right before the fragment mark is INSIDE the URL (it is not surrounding whitespace), whether or not the fragment is then dropped
             pf = dict(p, fragment=["f"])
@@ -207,6 +217,8 @@ def main():
     jobs = []
     for comp in ("user", "password", "path", "query", "fragment"):
         toks = [t for t in R.TOKENS if t not in R.EXCLUDE[comp]]
+        if comp in ("user", "password"):
+            toks = toks + NETLOC_LOOKALIKES
         seqs = [list(c) for n in range(1, maxlen + 1) for c in itertools.product(toks, repeat=n)]
         n = 8 if a.tier == "quick" else 64
         for i in range(n):
